@@ -6,6 +6,7 @@ import MjProof.Lemmas.Sparse
 import MjProof.Lemmas.SparseD2S
 import MjProof.Lemmas.SparseCompress
 import MjProof.Lemmas.SparseTranspose
+import MjProof.Lemmas.SparseSuper
 import MjProof.Lemmas.SparseCombine
 import MjProof.Lemmas.SparseSym
 import MjProof.Lemmas.LinAlgDense
@@ -370,7 +371,7 @@ theorem transposeSparse_eq_dense {nr nc cap capT : Nat} (p : Pat nr nc cap) (mat
   obtain ⟨out', h1, h2⟩ := transposeSparse_spec p mat hnr hnc hoff hcapT out
   refine ⟨out', h1, ?_⟩
   intro c hc
-  obtain ⟨a1, a2, a3, a4, a5⟩ := h2 c hc
+  obtain ⟨a1, a2, a3, a4, a5, _⟩ := h2 c hc
   refine ⟨?_, ?_, ?_, ?_⟩
   · rw [a2]
     unfold trStart
@@ -408,6 +409,96 @@ example : nget exPat.rowadr 0 = 0 ∧
       omega
     · have h1 : nget exPat.rownnz r = 0 := by unfold nget; simp [show ¬ r < 2 by omega]
       rw [h1] at hk; omega
+
+/-- **transposeSparse, row supernodes.**  Under the hypotheses of `transposeSparse_eq_dense`, calling
+`mju_transposeSparse` with `res_rowsuper != NULL` (model `transposeSparseS`: the marking statements interleaved
+with the placement loop, `c_prev` reset at the start of every input row) performs only in-range accesses, leaves
+the other outputs exactly as with `res_rowsuper = NULL`, and for every result row `c`:
+`res_rowsuper[c]` stays inside the matrix; **soundness, any pattern** (unsorted and duplicate columns included): the
+rows `c, c+1, …, c + res_rowsuper[c]` of the result have the same number of entries and the same column indices in
+the same order — which is what `mju_sqrMatTDSparse*` (through `rowsuperT`) and the AVX `mju_mulMatVecSparse` rely on
+when they read only the first row's `colind`; the entries form run lengths (`res_rowsuper[c] > 0` implies
+`res_rowsuper[c+1] = res_rowsuper[c] - 1`); **exactness, input rows with increasing columns**: the run is maximal,
+the next result row differs. -/
+theorem transposeSparse_rowsuper {nr nc cap capT : Nat} (p : Pat nr nc cap) (mat : Vector ℝ cap)
+    (hnr : 0 < nr) (hnc : 0 < nc) (hoff : nget p.rowadr 0 = 0)
+    (hcapT : ∑ r ∈ range nr, nget p.rownnz r ≤ capT) (out : TrOut ℝ nc capT) (sup0 : Vector Nat nc) :
+    ∃ out' sup, transposeSparse mat p.rownnz p.rowadr p.colind nc out = some out' ∧
+      transposeSparseS mat p.rownnz p.rowadr p.colind nc out sup0 = some (out', sup) ∧
+      ∀ c, c < nc →
+        c + nget sup c < nc ∧
+        (∀ j, j ≤ nget sup c → SameRow out'.rownnz out'.rowadr out'.colind c (c + j)) ∧
+        (0 < nget sup c → nget sup (c + 1) + 1 = nget sup c) ∧
+        (SortedRows p → c + nget sup c + 1 < nc →
+          ¬ SameRow out'.rownnz out'.rowadr out'.colind (c + nget sup c) (c + nget sup c + 1)) := by
+  obtain ⟨out', sup, h1, h2, hrun, hsound, hexact⟩ := transposeSparseS_spec p mat hnr hnc hoff hcapT out sup0
+  refine ⟨out', sup, h1, h2, ?_⟩
+  intro c hc
+  have R := hrun c hc
+  refine ⟨?_, ?_, ?_, ?_⟩
+  · by_cases h0 : nget sup c = 0
+    · omega
+    · have := (hsound _ (R.1 (nget sup c - 1) (by omega))).1
+      omega
+  · exact R.chain (SameRow.refl _ _ _) (fun _ _ _ => SameRow.trans) (fun i hi => (hsound i hi).2)
+  · intro hpos
+    have hc1 : c + 1 < nc := by
+      have := (hsound _ (R.1 0 hpos)).1
+      omega
+    obtain ⟨s, hs⟩ : ∃ s, nget sup c = s + 1 := ⟨nget sup c - 1, by omega⟩
+    rw [hs] at R
+    have := RunIs.unique R.tail (hrun (c + 1) hc1)
+    omega
+  · intro hs hlt hsame
+    exact hexact hs _ hlt hsame R.2
+
+/-- the extra hypothesis of the exactness clause is satisfiable: the example pattern has increasing rows -/
+example : SortedRows exPat := by
+  intro r k k' hkk hk'
+  have hr : r = 0 ∨ r = 1 ∨ 2 ≤ r := by omega
+  rcases hr with rfl | rfl | hr
+  · have h1 : nget exPat.rownnz 0 = 2 := by decide
+    rw [h1] at hk'
+    have : k = 0 ∧ k' = 1 := by omega
+    obtain ⟨rfl, rfl⟩ := this
+    decide
+  · have h1 : nget exPat.rownnz 1 = 1 := by decide
+    rw [h1] at hk'; omega
+  · have h1 : nget exPat.rownnz r = 0 := by unfold nget; simp [show ¬ r < 2 by omega]
+    rw [h1] at hk'; omega
+
+/-- **superSparse is exact on any pattern** (rows in any order and layout, unsorted and duplicate columns): every
+access is in range and `rowsuper[r]` is exactly the number of rows following row `r` that are identical to it (same
+`rownnz`, same `colind` sequence), consecutively: the rows `r … r + rowsuper[r]` are identical and the next one, if
+any, differs. -/
+theorem superSparse_exact {nr nc cap : Nat} (p : Pat nr nc cap) (hnr : 0 < nr) (sup0 : Vector Nat nr) :
+    ∃ sup, superSparse p sup0 = some sup ∧
+      ∀ r, r < nr →
+        r + nget sup r < nr ∧
+        (∀ j, j ≤ nget sup r → SameRow p.rownnz p.rowadr p.colind r (r + j)) ∧
+        (r + nget sup r + 1 < nr →
+          ¬ SameRow p.rownnz p.rowadr p.colind (r + nget sup r) (r + nget sup r + 1)) := by
+  obtain ⟨sup, h1, hrun⟩ := superSparse_spec p hnr sup0
+  refine ⟨sup, h1, ?_⟩
+  intro r hr
+  have R := hrun r hr
+  have hflag : ∀ i, flagS p i ≠ 0 → i + 1 < nr ∧ SameRow p.rownnz p.rowadr p.colind i (i + 1) := by
+    intro i hi
+    unfold flagS at hi
+    by_contra hh
+    rw [if_neg hh] at hi
+    exact hi rfl
+  refine ⟨?_, ?_, ?_⟩
+  · by_cases h0 : nget sup r = 0
+    · omega
+    · have := (hflag _ (R.1 (nget sup r - 1) (by omega))).1
+      omega
+  · exact R.chain (SameRow.refl _ _ _) (fun _ _ _ => SameRow.trans) (fun i hi => (hflag i hi).2)
+  · intro hlt hsame
+    have := R.2
+    unfold flagS at this
+    rw [if_pos ⟨hlt, hsame⟩] at this
+    omega
 
 /-! ### certificate theorems for the iterative routines
 
